@@ -1,10 +1,14 @@
 //! rvchild <role> [args…] — subprocess roles of the harness.
 //!   routinator <args…>   the routinator command line (same steps as routinator's main.rs), in a
 //!                        process of its own because logging can be set up only once per process.
+//!   rrdp-update <dir> <notify uri> <proxy port>
+//!                        one RRDP client update through routinator's collector (C24 victim; kill
+//!                        points are armed through ROUTINATOR_VERIF_KILL_AT / _KILL_TRACE).
 fn main() {
     let args: Vec<String> = std::env::args().collect();
     match args.get(1).map(|s| s.as_str()) {
         Some("routinator") => std::process::exit(rv::fmtx::child_routinator(&args[2..])),
+        Some("rrdp-update") => std::process::exit(rv::c24::child_rrdp_update(&args[2..])),
         _ => {
             eprintln!("usage: rvchild <role> [args…]");
             std::process::exit(2);
